@@ -117,6 +117,16 @@ def run(c, a):
     if len(real) != 4:
         raise Broken("real-memberlist probe returned %d records" % len(real))
     events += real
+    rc_out = os.path.join(c.scratch, "realclaim.ndjson")
+    rc, txt = c.go_test("proxy", HARNESS, "^TestVerifGossipRealClaim$", env={"VERIF_OUT": rc_out}, timeout=600, name="realclaim")
+    if rc != 0 or not os.path.exists(rc_out):
+        raise Broken("real-memberlist claim probe failed: " + txt[-1500:])
+    realc = [json.loads(l) for l in open(rc_out)]
+    if len(realc) != 4:
+        raise Broken("real-memberlist claim probe returned %d records" % len(realc))
+    if any(not e["joined"] or not e["claimed"] for e in realc):
+        raise Broken("real-memberlist claim probe: the instances did not get to know each other: %s" % json.dumps(realc)[:600])
+    events += realc
     lines = [json.dumps(e) for e in events]
     ro = c.tlc("Gossip", "GossipObs", "obs.cfg", workers=1, timeout=1200, files={"trace.ndjson": "\n".join(lines) + "\n"}, name="obs")
     text = open(ro.out).read()
@@ -131,7 +141,7 @@ def run(c, a):
         if e["ev"] == "Config":
             runs.append([])
             cur = len(runs) - 1
-        if e["ev"] in ("Route", "RealLeave"):
+        if e["ev"] in ("Route", "RealLeave", "RealClaim"):
             run_of.append(None)
         else:
             run_of.append(cur)
@@ -145,6 +155,11 @@ def run(c, a):
         if clause == "route":
             c.violation({"module": "Gossip", "clause": "route"}, "routing decision differs from the spec: %s" % json.dumps(e),
                         {"kind": "route-case", "event": e})
+            continue
+        if clause == "realclaim":
+            c.violation({"module": "Gossip", "clause": "realclaim", "variant": e["variant"]},
+                        "real announcement path: after a claimed the shard and b claimed it later the owners are %s (%s)" % (e["owners"], json.dumps(e)),
+                        {"kind": "real-claim", "event": e})
             continue
         if clause == "realleave":
             cause = "memberlist-callback-deadlock" if (not e["left"] or not e["responsive"]) else "left-instance-not-forgotten"
